@@ -2,7 +2,7 @@
    a history of operations on nodes / models is executed on model/ModelSem.v at F := Q and compared, operation by
    operation, with what reservoirpy returned (outputs, success flag, states of all nodes afterwards). *)
 From Coq Require Import List Arith Bool QArith.
-From RV Require Import base.Num base.LA model.Windows model.ModelSem model.Kinds.
+From RV Require Import base.Num base.LA model.Windows model.ModelSem model.ProxySem model.Kinds.
 Import ListNotations.
 Close Scope Q_scope.
 
@@ -45,8 +45,10 @@ Inductive op :=
 | OpCall (mi : nat) (stateful reset : bool) (from_state : list (nat * qv)) (x : list (nat * qv)) (fb : list (nat * qv))
 | OpReset (mi : nat).
 
-(* what reservoirpy did: success flag, per-step outputs (output nodes in [mouts] order), states of all nodes after *)
-Record obs := mkObs { ook : bool; oouts : list (list qv); ostates : list (nat * qv) }.
+(* what reservoirpy did: success flag, per-step outputs (output nodes in [mouts] order), states of all nodes after,
+   and (when the harness looked: Some) whether afterwards every node's `_state_proxy` was None and no receiver's
+   DistantFeedback was `_clamped` *)
+Record obs := mkObs { ook : bool; oouts : list (list qv); ostates : list (nat * qv); orest : option bool }.
 
 Definition fb_steps (shift_fb : bool) (FB : list (nat * list qv)) (T : nat) : list (list (nat * qv)) :=
   let disp := map (fun p => (fst p, dispatch_fb shift_fb (vzeros (length (hd [] (snd p)))) (snd p))) FB in
@@ -110,4 +112,69 @@ Fixpoint dbg_ops (nodes : list snode) (models : list smodel) (l : list op) (e : 
   | [] => []
   | o :: rest => let '(e1, outs, ok) := run_one nodes models o e in
                  (ok, outs, map (fun s => (sid s, st (e1 (sid s)))) nodes) :: dbg_ops nodes models rest e1
+  end.
+
+(* ------------------------------------------------------------------------------------------------------------------
+   The same interpreter on the LOW-LEVEL model (model/ProxySem.v: explicit `_state_proxy` / clamp management):
+   OpRun -> run_op_ll (Model.run / Model._run), OpCall -> call_op_ll (Model.call), OpReset -> reset_op_ll.
+   Besides outputs / success / states it compares the model's prediction "at rest afterwards" with the observed
+   proxies and clamps.  proofs/Refine_proofs.v proves that both interpreters agree from at-rest states; running both
+   ties each of the two models to the code independently. *)
+Definition init_env_ll (nodes : list snode) : lenv (F:=Q) := inject (init_env nodes).
+
+Definition run_one_ll (nodes : list snode) (models : list smodel) (o : op) (e : lenv (F:=Q))
+  : lenv (F:=Q) * list (list qv) * bool :=
+  match o with
+  | OpRun mi stateful reset from X shift FB =>
+      match nth_error models mi with
+      | Some sm =>
+          let m := to_model nodes sm in
+          let fbs := fb_steps shift FB (length X) in
+          let steps := map (fun p => (assoc (fst p), assoc (snd p))) (combine X (fbs ++ repeat [] (length X))) in
+          run_op_ll m stateful reset (assoc from) steps e
+      | None => (e, [], false)
+      end
+  | OpCall mi stateful reset from x fb =>
+      match nth_error models mi with
+      | Some sm => call_op_ll (to_model nodes sm) stateful reset (assoc from) (assoc x) (assoc fb) e
+      | None => (e, [], false)
+      end
+  | OpReset mi =>
+      match nth_error models mi with
+      | Some sm => (reset_op_ll (to_model nodes sm) e, [], true)
+      | None => (e, [], false)
+      end
+  end.
+
+Definition states_ok_ll (e : lenv (F:=Q)) (l : list (nat * qv)) : bool :=
+  forallb (fun p => vclose (lst (e (fst p))) (snd p)) l.
+(* decidable at_rest over the scenario's nodes *)
+Definition at_restb (nodes : list snode) (e : lenv (F:=Q)) : bool :=
+  forallb (fun s => match proxy (e (sid s)), clamp (e (sid s)) with None, None => true | _, _ => false end) nodes.
+
+Definition chk_op_ll (nodes : list snode) (models : list smodel) (o : op) (ob : obs) (e : lenv (F:=Q)) : lenv (F:=Q) * bool :=
+  let '(e1, outs, ok) := run_one_ll nodes models o e in
+  (e1, Bool.eqb ok (ook ob) && (if ok then mmclose outs (oouts ob) else true) && states_ok_ll e1 (ostates ob)
+       && match orest ob with Some b => Bool.eqb b (at_restb nodes e1) | None => true end).
+
+Fixpoint chk_ops_ll (nodes : list snode) (models : list smodel) (l : list (op * obs)) (e : lenv (F:=Q)) : bool :=
+  match l with
+  | [] => true
+  | (o, ob) :: rest => let '(e1, b) := chk_op_ll nodes models o ob e in b && chk_ops_ll nodes models rest e1
+  end.
+
+Definition chk_hist_ll (nodes : list snode) (models : list smodel) (l : list (op * obs)) : bool :=
+  topo_ok models && chk_ops_ll nodes models l (init_env_ll nodes).
+
+(* what the harness emits: the history checked against both models *)
+Definition chk_hist_both (nodes : list snode) (models : list smodel) (l : list (op * obs)) : bool :=
+  chk_hist nodes models l && chk_hist_ll nodes models l.
+
+(* debugging aid for the low-level interpreter: success, outputs, states and at-rest flag after each op *)
+Fixpoint dbg_ops_ll (nodes : list snode) (models : list smodel) (l : list op) (e : lenv (F:=Q))
+  : list (bool * list (list qv) * list (nat * qv) * bool) :=
+  match l with
+  | [] => []
+  | o :: rest => let '(e1, outs, ok) := run_one_ll nodes models o e in
+                 (ok, outs, map (fun s => (sid s, lst (e1 (sid s)))) nodes, at_restb nodes e1) :: dbg_ops_ll nodes models rest e1
   end.
